@@ -389,6 +389,40 @@ func (w *wireCtx) spliceOK(fd *ast.FuncDecl, call *ast.CallExpr) (string, bool) 
 		return "spliced expression is not a variable", false
 	}
 	obj := w.info.Uses[id]
+	// the whole selection factored out: `data, err := helper(…)`; then every
+	// return of the helper must hand back a pre-encoded source or an error
+	if srcs := w.assignSources(fd, obj); len(srcs) == 1 {
+		if c, isCall := core.Unparen(srcs[0]).(*ast.CallExpr); isCall {
+			if fn := core.CalleeFunc(w.info, c); fn != nil && fn.Pkg() == w.pk.Types && !strings.HasSuffix(fn.Name(), "encode") {
+				if cd := core.DeclOf(w.pk, fn.Origin()); cd != nil && cd.Body != nil {
+					bad := ""
+					n := 0
+					ast.Inspect(cd.Body, func(x ast.Node) bool {
+						if _, isLit := x.(*ast.FuncLit); isLit {
+							return false
+						}
+						ret, ok := x.(*ast.ReturnStmt)
+						if !ok || len(ret.Results) != 2 {
+							return true
+						}
+						n++
+						first := core.Unparen(ret.Results[0])
+						switch {
+						case core.IsNilIdent(w.info, first) && !core.IsNilIdent(w.info, ret.Results[1]):
+						case w.preEncoded(cd, first):
+						default:
+							bad = core.ExprStr(first)
+						}
+						return true
+					})
+					if bad == "" && n > 0 {
+						return "pre-encoded J5 JSON selected by " + cd.Name.Name + ": every return hands back Any.J5Json, the codec's own encode result, or an error", true
+					}
+					return "helper " + cd.Name.Name + " can return " + bad + ", which is not a pre-encoded source", false
+				}
+			}
+		}
+	}
 	// sources
 	for _, s := range w.assignSources(fd, obj) {
 		s = core.Unparen(s)
@@ -464,6 +498,24 @@ func endsInReturn(b *ast.BlockStmt) bool {
 	}
 	_, ok := b.List[len(b.List)-1].(*ast.ReturnStmt)
 	return ok
+}
+
+// preEncoded: the expression is Any.J5Json, or a variable assigned from the
+// codec's own encode.
+func (w *wireCtx) preEncoded(fd *ast.FuncDecl, e ast.Expr) bool {
+	switch x := core.Unparen(e).(type) {
+	case *ast.SelectorExpr:
+		return x.Sel.Name == "J5Json"
+	case *ast.Ident:
+		for _, s2 := range w.assignSources(fd, w.info.Uses[x]) {
+			if c, isCall := core.Unparen(s2).(*ast.CallExpr); isCall && core.CalleeName(w.info, c) == "(*"+core.Module+"/"+codecRel+".Codec).encode" {
+				return true
+			}
+		}
+	case *ast.CallExpr:
+		return core.CalleeName(w.info, x) == "(*"+core.Module+"/"+codecRel+".Codec).encode"
+	}
+	return false
 }
 
 // W1: per Go type, the emitter class chosen by encodeScalarField.
@@ -780,27 +832,63 @@ func (w *wireCtx) flagStartsTrue(fd *ast.FuncDecl, flag ast.Expr) bool {
 func (w *wireCtx) ruleW6() {
 	r := w.r
 	r.Rule("R-WIRE/W6", "a set oneof is written as \"!type\": <name>, <name>: <value> with the same name expression in both places; an Any as \"!type\": <type name>, \"value\": <json>; the decoder reads the same two constants")
-	labels := func(fd *ast.FuncDecl) (consts []string, exprs []string) {
-		ast.Inspect(fd.Body, func(n ast.Node) bool {
-			if c, ok := n.(*ast.CallExpr); ok && w.encCall(c) == "fieldLabel" {
+	// first arguments of the calls of one encoder primitive made by fd, in
+	// source order, following calls into same-package helpers with the helper's
+	// parameter names replaced by the argument expressions of the call
+	var firstArgs func(body ast.Node, prim string, subst map[string]string, depth int) (consts []string, exprs []string)
+	firstArgs = func(body ast.Node, prim string, subst map[string]string, depth int) (consts []string, exprs []string) {
+		ast.Inspect(body, func(n ast.Node) bool {
+			c, ok := n.(*ast.CallExpr)
+			if !ok {
+				return true
+			}
+			if w.encCall(c) == prim && len(c.Args) > 0 {
 				if s, ok := core.ConstString(w.info, c.Args[0]); ok {
 					consts = append(consts, s)
 				} else {
-					exprs = append(exprs, core.ExprStr(c.Args[0]))
+					e := core.ExprStr(c.Args[0])
+					if v, ok := subst[e]; ok {
+						e = v
+					}
+					exprs = append(exprs, e)
+				}
+				return true
+			}
+			if depth >= 2 || isPrimitiveEmitter(w.encCall(c)) {
+				return true
+			}
+			// value encoders (encodeValue, encodeObject, …) frame their own output: only plain helpers are followed
+			if fn := core.CalleeFunc(w.info, c); fn != nil && fn.Pkg() == w.pk.Types && !strings.HasPrefix(fn.Name(), "encode") {
+				if cd := core.DeclOf(w.pk, fn.Origin()); cd != nil && cd.Body != nil && cd.Type.Params != nil {
+					sub := map[string]string{}
+					i := 0
+					for _, f := range cd.Type.Params.List {
+						for _, nm := range f.Names {
+							if i < len(c.Args) {
+								a := core.ExprStr(c.Args[i])
+								if v, ok := subst[a]; ok {
+									a = v
+								}
+								sub[nm.Name] = a
+							}
+							i++
+						}
+					}
+					cc, ee := firstArgs(cd.Body, prim, sub, depth+1)
+					consts = append(consts, cc...)
+					exprs = append(exprs, ee...)
 				}
 			}
 			return true
 		})
 		return
 	}
+	labels := func(fd *ast.FuncDecl) (consts []string, exprs []string) {
+		return firstArgs(fd.Body, "fieldLabel", nil, 0)
+	}
 	strs := func(fd *ast.FuncDecl) (exprs []string) {
-		ast.Inspect(fd.Body, func(n ast.Node) bool {
-			if c, ok := n.(*ast.CallExpr); ok && w.encCall(c) == "addString" {
-				exprs = append(exprs, core.ExprStr(c.Args[0]))
-			}
-			return true
-		})
-		return
+		_, e := firstArgs(fd.Body, "addString", nil, 0)
+		return e
 	}
 	if fd := w.methods["encodeOneofBody"]; fd != nil {
 		o := r.Add("R-WIRE/W6", "encoder.encodeOneofBody | framing", fd.Pos(), "oneof framing")
@@ -905,4 +993,13 @@ func (w *wireCtx) ruleEscaper() {
 			return true
 		})
 	})
+}
+
+// isPrimitiveEmitter: the low-level emitters themselves are not followed.
+func isPrimitiveEmitter(name string) bool {
+	switch name {
+	case "add", "addString", "addQuoted", "fieldLabel", "fieldSep", "openObject", "closeObject", "openArray", "closeArray":
+		return true
+	}
+	return false
 }
